@@ -180,6 +180,86 @@ def mul_identity(chk, f, rule="FF3"):
                     "__mul__: the phase number/am is computed without excluding am == 0")
 
 
+def scalar_siblings(chk, cls, rule="FF3"):
+    """the other scalar operations of _MpsMpoParent agree with __mul__: `-psi`, `number * psi`, `psi / number` are `psi * (-1)`,
+    `psi * number`, `psi * (1 / number)`.  Each is either a delegation `return self.__mul__(E)` with E the right scalar (exact
+    rational identity), or an explicit implementation whose (new factor) * (scalar applied to a site tensor) equals the right scalar
+    times self.factor on every path -- as a rational identity in the symbols number, |number| and factor, i.e. for complex numbers too
+    (an implementation that is right only when number**2 == |number|**2 is right for real scalars only)."""
+    for name, expect in (("__rmul__", lambda N: N), ("__neg__", lambda N: Rat(Poly.const(-1))), ("__truediv__", lambda N: Rat(Poly.const(1)) / N)):
+        f = cls.methods.get(name)
+        if f is None:
+            continue
+        fn = f.node
+        me = f.params[0]
+        num = f.params[1] if len(f.params) > 1 else "number"
+        NUM, F_ = Rat(Poly.sym(num)), Rat(Poly.sym("F"))
+        want = expect(NUM)
+        body = A.strip_docstring(fn.body)
+        if len(body) == 1 and isinstance(body[0], ast.Return) and isinstance(body[0].value, ast.Call) and A.text(body[0].value.func) in (f"{me}.__mul__",) \
+                and len(body[0].value.args) == 1:
+            try:
+                got = from_ast(body[0].value.args[0])
+            except NotPolynomial:
+                got = None
+            chk.verdict(rule, (f, body[0]), f"{name}: {A.short(body[0], 50)}", True if got is not None and got.equals(want) else False,
+                        f"{name}: delegates to __mul__ with the scalar `{A.text(body[0].value.args[0])}` instead of {want}")
+            continue
+        if len(body) == 1 and isinstance(body[0], ast.Return) and isinstance(body[0].value, ast.BinOp) and isinstance(body[0].value.op, ast.Mult) \
+                and me in (A.text(body[0].value.left), A.text(body[0].value.right)):
+            other = body[0].value.right if A.text(body[0].value.left) == me else body[0].value.left
+            try:
+                got = from_ast(other)
+            except NotPolynomial:
+                got = None
+            chk.verdict(rule, (f, body[0]), f"{name}: {A.short(body[0], 50)}", True if got is not None and got.equals(want) else False,
+                        f"{name}: multiplies by `{A.text(other)}` instead of {want}")
+            continue
+        # explicit implementation: per path, product of the new factor and of the scalar applied to one site tensor
+        b = A.local_bindings(fn)
+        phis = [nm for nm, ds in b.items() for st, v, k in ds if k == "assign" and isinstance(v, ast.Call) and A.text(v.func) == f"{me}.shallow_copy"]
+        if not phis:
+            raise AnalysisError(f"{name}: neither a delegation to __mul__ nor an explicit implementation on a shallow copy")
+        phi = phis[0]
+        import copy as _copy
+
+        def to_rat(node, stores):
+            class R(ast.NodeTransformer):
+                def visit_Attribute(self, n):
+                    if A.text(n) == f"{me}.factor":
+                        return ast.Name(id="F", ctx=ast.Load())
+                    return n
+
+                def visit_Name(self, n):
+                    if isinstance(n.ctx, ast.Load) and n.id in stores and n.id not in (me, num, phi):
+                        return self.visit(_copy.deepcopy(stores[n.id]))
+                    return n
+
+                def visit_Call(self, c):
+                    if A.call_name(c) == "abs" and len(c.args) == 1 and A.text(c.args[0]) == num:
+                        return ast.Name(id="ABS", ctx=ast.Load())
+                    return self.generic_visit(c)
+            return from_ast(R().visit(_copy.deepcopy(node)))
+        for conds, stores, ret in [p_ for p_ in A.straightline_paths(body) if p_[2] is not None]:
+            fac = stores.get(f"{phi}.factor")
+            scal = None
+            for tt, v in stores.items():
+                if tt.startswith(f"{phi}.A[") and isinstance(v, ast.BinOp) and isinstance(v.op, (ast.Mult, ast.Div)):
+                    if isinstance(v.op, ast.Mult):
+                        scal = v.right if A.text(v.left) == tt else (v.left if A.text(v.right) == tt else None)
+                    elif A.text(v.left) == tt:
+                        scal = ast.BinOp(left=ast.Constant(value=1), op=ast.Div(), right=v.right)
+            ctext = " and ".join(("" if o else "not ") + A.text(t) for t, o in conds) or "always"
+            try:
+                prod = (to_rat(fac, stores) if fac is not None else F_) * (to_rat(scal, stores) if scal is not None else Rat(Poly.const(1)))
+            except NotPolynomial:
+                raise AnalysisError(f"{name}: scalar arithmetic on the path [{ctext}] is not rational")
+            chk.verdict(rule, (f, ret), f"{name} [{ctext}]: new factor * scalar on the site tensor == ({want}) * {me}.factor", True if prod.equals(want * F_) else False,
+                        f"{name}: on the path [{ctext}] new factor * scalar applied to the site tensor = {prod}, expected ({want})*F as an identity in "
+                        f"`{num}` and |{num}|: the operation disagrees with `{me} * ({want})` -- e.g. the phase of a complex divisor is not inverted "
+                        f"(right for real scalars only)")
+
+
 # ------------------------------------------------------- FF4 division / factor pairing
 def division_sites(fn):
     """(stmt, numerator node, denominator node) for `T / v` used to normalise a tensor"""
